@@ -2228,6 +2228,36 @@ theorem toXmlFrom_read (leveled : List Entry) (prev : List Str) (F : List XNode)
       simp [hF1, hF']
     · rw [hr', hread, entry_eta]; simp
 
+/-! ### the unit-class output loop -/
+
+theorem outputUnits_unmerged (f : Flags) (hb : f.saveBase = false) (hl : f.saveLib = true)
+    (ucs : List (Entry × List Entry)) :
+    outputUnits f ucs = ucs.filterMap fun p =>
+      if hasLib p.1 then some (written f p.1, true, outputSection f p.2)
+      else if p.2.any hasLib then some (written f p.1, false, outputSection f p.2)
+      else none := by
+  induction ucs with
+  | nil => simp [outputUnits]
+  | cons p r ih =>
+    obtain ⟨uc, us⟩ := p
+    by_cases hu : hasLib uc = true
+    · simp [outputUnits, shouldSkip, hb, hl, hu, ih]
+    · have hu' : hasLib uc = false := by simpa using hu
+      by_cases ha : us.any hasLib = true
+      · simp [outputUnits, shouldSkip, hb, hl, hu', ha, ih, List.filterMap_cons, -List.any_eq_true]
+      · have ha' : us.any hasLib = false := by simpa using ha
+        simp [outputUnits, shouldSkip, hb, hl, hu', ha', ih, List.filterMap_cons, -List.any_eq_true]
+
+theorem outputUnits_merged (f : Flags) (hb : f.saveBase = true) (hl : f.saveLib = true)
+    (ucs : List (Entry × List Entry)) :
+    outputUnits f ucs = ucs.map fun p => (written f p.1, true, p.2.map (written f)) := by
+  induction ucs with
+  | nil => simp [outputUnits]
+  | cons p r ih =>
+    obtain ⟨uc, us⟩ := p
+    have : List.filter (fun _ : Entry => true) us = us := List.filter_eq_self.mpr (by simp)
+    simp [outputUnits, outputSection, shouldSkip, hb, hl, ih, this]
+
 end HedVerif.SchemaIO
 
 namespace HedVerif.C05
@@ -2530,5 +2560,95 @@ theorem cross_format (ts : List Entry)
     (by rw [e1]; exact hr)
   rw [e2] at this
   exact this
+
+/-! ### the unit-class section of a save -/
+
+/-- **Unit classes of an unmerged save.**  For every list of unit classes with their units, when only the library
+part is saved (`save_base = False`, `save_lib = True`), `_output_units` writes, in order: every library unit class
+in full (description and attributes, `inLibrary` stripped, `include_props = True`) with its library units; a
+unit class of the partner schema exactly when it has a library unit, and then as a bare placeholder
+(`include_props = False`) holding only those library units; nothing else.  In particular the placeholder decision
+of one class never depends on the classes before it. -/
+theorem unit_classes_unmerged (f : Flags) (hb : f.saveBase = false) (hl : f.saveLib = true)
+    (ucs : List (Entry × List Entry)) :
+    outputUnits f ucs = (ucs.filterMap fun p =>
+      if hasLib p.1 then some (written f p.1, true, outputSection f p.2)
+      else if p.2.any hasLib then some (written f p.1, false, outputSection f p.2)
+      else none) ∧
+    (∀ p ∈ ucs, hasLib p.1 = true → (written f p.1, true, outputSection f p.2) ∈ outputUnits f ucs) ∧
+    (∀ p ∈ ucs, hasLib p.1 = false →
+      ((written f p.1, false, outputSection f p.2) ∈ outputUnits f ucs ↔ p.2.any hasLib = true)) ∧
+    (∀ t ∈ outputUnits f ucs, t.2.1 = false → ∃ p ∈ ucs, hasLib p.1 = false ∧ p.2.any hasLib = true ∧
+      t = (written f p.1, false, outputSection f p.2)) := by
+  have heq := outputUnits_unmerged f hb hl ucs
+  refine ⟨heq, ?_, ?_, ?_⟩
+  · intro p hp hlib
+    rw [heq, List.mem_filterMap]
+    exact ⟨p, hp, by simp [hlib]⟩
+  · intro p hp hlib
+    rw [heq, List.mem_filterMap]
+    constructor
+    · rintro ⟨q, _, hq⟩
+      by_cases hql : hasLib q.1 = true
+      · simp [hql] at hq
+      · have hql' : hasLib q.1 = false := by simpa using hql
+        by_cases hqa : q.2.any hasLib = true
+        · simp only [hql', Bool.false_eq_true, ↓reduceIte, hqa, Option.some.injEq, Prod.mk.injEq, true_and] at hq
+          -- the units written are the library units: non-empty on one side iff on the other
+          have h1 : (outputSection f q.2).isEmpty = false := by
+            have := hqa
+            simp only [List.any_eq_true] at this
+            obtain ⟨u, hu, hul⟩ := this
+            have : written f u ∈ outputSection f q.2 := by
+              simp only [outputSection, List.mem_map, List.mem_filter]
+              exact ⟨u, ⟨hu, by simp [shouldSkip, hb, hl, hul]⟩, rfl⟩
+            cases hne : outputSection f q.2 with
+            | nil => rw [hne] at this; simp at this
+            | cons a b => rfl
+          rw [hq.2] at h1
+          cases hpa : p.2.any hasLib with
+          | true => rfl
+          | false =>
+            have : outputSection f p.2 = [] := by
+              simp only [outputSection, List.map_eq_nil_iff, List.filter_eq_nil_iff]
+              intro u hu
+              simp only [List.any_eq_false] at hpa
+              simp [shouldSkip, hb, hl, hpa u hu]
+            rw [this] at h1; simp at h1
+        · have hqa' : q.2.any hasLib = false := by simpa using hqa
+          simp [hql', hqa'] at hq
+    · intro ha
+      exact ⟨p, hp, by simp [hlib, ha]⟩
+  · intro t ht hprops
+    rw [heq, List.mem_filterMap] at ht
+    obtain ⟨q, hq, hqt⟩ := ht
+    by_cases hql : hasLib q.1 = true
+    · simp only [hql, ↓reduceIte, Option.some.injEq] at hqt
+      rw [← hqt] at hprops; simp at hprops
+    · have hql' : hasLib q.1 = false := by simpa using hql
+      by_cases hqa : q.2.any hasLib = true
+      · simp only [hql', Bool.false_eq_true, ↓reduceIte, hqa, Option.some.injEq] at hqt
+        exact ⟨q, hq, hql', hqa, hqt.symm⟩
+      · have hqa' : q.2.any hasLib = false := by simpa using hqa
+        simp [hql', hqa'] at hqt
+
+/-- merged save (or a schema without partner): every unit class in full with all its units -/
+theorem unit_classes_merged (f : Flags) (hb : f.saveBase = true) (hl : f.saveLib = true)
+    (ucs : List (Entry × List Entry)) :
+    outputUnits f ucs = ucs.map fun p => (written f p.1, true, p.2.map (written f)) :=
+  outputUnits_merged f hb hl ucs
+
+/-- **`Preorder` is needed (finding C05-wiki-merged-rooted-order on the model).**  A tag listed behind its
+parent's block — as a rooted library tag is after loading an unmerged file, when the tag section does not re-sort
+that top-level group — is written by `_output_tags` at its own depth but in that place, and the MediaWiki reader
+attaches it to the last tag of the depth above: `A/B/R` listed after `A/C` comes back as `A/C/R`. -/
+theorem wiki_order_counterexample :
+    Preorder [] [⟨['A'], [], none⟩, ⟨['A', '/', 'B'], [], none⟩, ⟨['A', '/', 'C'], [], none⟩,
+      ⟨['A', '/', 'B', '/', 'R'], [], none⟩] = false ∧
+    (ofWiki (toWiki [⟨['A'], [], none⟩, ⟨['A', '/', 'B'], [], none⟩, ⟨['A', '/', 'C'], [], none⟩,
+      ⟨['A', '/', 'B', '/', 'R'], [], none⟩])).toOption =
+      some [⟨['A'], [], none⟩, ⟨['A', '/', 'B'], [], none⟩, ⟨['A', '/', 'C'], [], none⟩,
+        ⟨['A', '/', 'C', '/', 'R'], [], none⟩] :=
+  ⟨by decide, by decide⟩
 
 end HedVerif.C05
